@@ -6,7 +6,7 @@
    returns (Props/C19.v C19_phone_of_chars with Props/C01.v C01_decoded_headers_exist: 6 or 10 BCD bytes). *)
 From JT.Base Require Import Prelude.
 From JT.Model Require Import Frame Paths Attach.
-From JT.Proofs Require Import Paths_proofs.
+From JT.Proofs Require Import Paths_proofs Attach_proofs.
 
 Lemma map_filter_fst {A : Type} (f : str -> str) (l : list (str * A)) :
   map (fun x => f (fst x)) (filter (fun r => accepted (fst r)) l) = map f (filter accepted (map fst l)).
@@ -44,9 +44,36 @@ Proof.
 Qed.
 Print Assumptions C19_directory.
 
-(* every run of the connection: the final state's saves are confined *)
-Theorem C19_run_confined : forall cwd d reads ph files,
-  on_quit_saves (snd (run d reads)) = Some (ph, files) -> phone_chars ph ->
-  Forall (fun pf => inside (cwd ++ [ph]) (resolve cwd (fst pf))) files.
-Proof. intros cwd d reads ph files. apply C19_session_confined. Qed.
+Lemma on_quit_saves_phone s ph files : on_quit_saves s = Some (ph, files) ->
+  exists m, s_recent s = Some m /\ ph = phone_of m.
+Proof.
+  unfold on_quit_saves. destruct (s_stage s =? ST_SUCCESS_QUIT); [|discriminate].
+  destruct (s_recent s) as [m|]; [|discriminate]. intros H. injection H as <- _. now exists m.
+Qed.
+
+(* every run of the connection, NO hypothesis on the phone: whatever bytes the reads carry, the directory is the
+   number of a message the frame decoder returned (Attach_proofs.run_recent_phone: 6 or 10 BCD bytes, builder
+   "attach"), hence a legal directory name (C19_phone_of_chars), and every save of the final state is confined *)
+Theorem C19_run_confined : forall cwd d reads ph files, Forall bytes reads ->
+  on_quit_saves (snd (run d reads)) = Some (ph, files) ->
+  phone_chars ph /\ Forall (fun pf => inside (cwd ++ [ph]) (resolve cwd (fst pf))) files.
+Proof.
+  intros cwd d reads ph files Hb H.
+  destruct (on_quit_saves_phone _ _ _ H) as (m & Hm & ->).
+  destruct (run_recent_phone d reads m Hb Hm) as [Hbytes Hne].
+  assert (Hp : phone_chars (phone_of m)) by (apply phone_of_chars; assumption).
+  split; [exact Hp | exact (C19_session_confined cwd _ _ _ H Hp)].
+Qed.
 Print Assumptions C19_run_confined.
+
+(* non-vacuity: a concrete session (0x1210 announcing "a.jpg" and "../x", both uploaded, then the connection ends):
+   the run reaches the success-quit stage with a recent message, and exactly one file is handed to os.WriteFile *)
+Definition ex_c19_reads : list (list N) :=
+  [[126; 18; 16; 0; 65; 1; 56; 0; 19; 128; 0; 0; 7; 84; 69; 82; 77; 73; 78; 65; 76; 45; 73; 68; 0; 0; 0; 0; 0; 0; 0; 0; 0; 0; 0; 0; 0; 0; 0; 0; 0; 0; 0; 0; 0; 0; 0; 0; 0; 0; 0; 0; 0; 0; 0; 0; 0; 0; 0; 0; 0; 0; 0; 0; 0; 0; 0; 0; 0; 1; 3; 46; 46; 97; 0; 0; 0; 3; 170; 126]].
+Example C19_run_example : Forall bytes ex_c19_reads /\
+  exists ph files, on_quit_saves (snd (run 1 ex_c19_reads)) = Some (ph, files) /\
+    ph = [49;51;56;48;48;49;51;56;48;48;48] /\ length files = 1%nat.
+Proof.
+  split; [unfold bytes, ex_c19_reads; repeat (constructor; [repeat (constructor; [reflexivity|]); constructor|]); constructor|].
+  eexists. eexists. split; [vm_compute; reflexivity|]. split; reflexivity.
+Qed.
